@@ -20,7 +20,9 @@ Lit(v, rules) == [t |-> "lit", v |-> v, rules |-> rules]
 Sweep(smp, bad) == {[smp EXCEPT ![i] = b] : i \in DOMAIN smp, b \in bad}
 FormatSweeps == Sweep(SUuid, {103}) \cup Sweep(SDate, {120, 57}) \cup Sweep(SDateTime, {120})
 FormatProbes == Emails \cup Uris \cup Uuids \cup Dates \cup DateTimes \cup FormatSweeps
-Docs == {NumD(b) : b \in NumProbes} \cup {StrD(c) : c \in StrProbes \cup FormatProbes}
+\* strings that spell numbers: members of an enum (or a const) as STRINGS, which are equal only to themselves
+NumLike == {<<49, 46, 53>>, <<49, 46, 53, 48>>, <<49, 53, 101, 45, 49>>, <<49, 48>>, <<49, 101, 49>>, <<45, 48>>, <<48>>}        \* 1.5 1.50 15e-1 10 1e1 -0 0
+Docs == {NumD(b) : b \in NumProbes} \cup {StrD(c) : c \in StrProbes \cup FormatProbes \cup NumLike}
         \cup {Null, BoolD(TRUE), BoolD(FALSE), [t |-> "arr", items |-> <<>>], [t |-> "obj", ps |-> <<>>]}
 DocSeq == SetToSeq(Docs)
 
@@ -88,6 +90,8 @@ CE(x, p) == {Lit(x, <<R("const", BV(TRUE)), R("enum", [t |-> "list", items |-> <
 ConstEnumSchemas == UNION {CE(p[1], p) \cup CE(p[2], p) : p \in Confusable}
 \* a bound beyond 64 bits bounds nothing (an implementation may refuse it; it must not read it as another number): GenRules only
 BigSchemas == {Lit(StrD(e), rs) : e \in {Sa, Sabcd}, rs \in {<<R("maxLength", NV(NBig))>>, <<R("minLength", NV(N1)), R("maxLength", NV(NBig))>>}}
-Schemas == ConstEnumSchemas \cup NumSchemas \cup DecSchemas \cup StrSchemas \cup FmtSchemas \cup EnumSchemas \cup ConstSchemas \cup PlainTypes
+NumLikeSchemas == {Lit(StrD(<<49, 46, 53>>), <<R("enum", [t |-> "list", items |-> <<EV(StrD(<<49, 46, 53>>)), EV(StrD(<<49, 48>>)), EV(StrD(<<45, 48>>))>>])>>),
+                   Lit(StrD(<<49, 48>>), <<R("const", BV(TRUE))>>), Lit(StrD(<<45, 48>>), <<R("const", BV(TRUE)), R("enum", [t |-> "list", items |-> <<EV(StrD(<<45, 48>>)), EV(NumD(N0))>>])>>)}
+Schemas == NumLikeSchemas \cup ConstEnumSchemas \cup NumSchemas \cup DecSchemas \cup StrSchemas \cup FmtSchemas \cup EnumSchemas \cup ConstSchemas \cup PlainTypes
 
 ===================================================================================
